@@ -7,7 +7,65 @@ ROOT = os.path.dirname(os.path.dirname(os.path.abspath(__file__)))
 HOOK_COMMITS = ["6458c78", "9fe18c3"]
 
 # id -> (category, technique, level text, level note, design_ref)
+SIM = "real btdht nodes on a simulated network under tokio's paused (virtual) clock; "
 CHECKS = {
+    "C01": ("exploration", "runtime monitoring: end-to-end oracle over search streams of 2..9 real nodes under virtual time",
+        "Held = on every sampled network, schedule and offset (seconds .. 24 h +- seconds .. 3 days) each search found / no longer found the announcers exactly as the 24 h rule demands; premises (all nodes know each other) are checked before every step.",
+        "Sampled configurations and latency-induced schedules only; round trips kept below the 1.5 s query timeout; virtual clock hook.", "DESIGN.md §6 C01"),
+    "C02": ("exploration", "runtime monitoring: wire-log + stream oracle against an omniscient scripted world",
+        "Held = in every explored world (1..1000 nodes, adversarial id placements, latencies < 1 s) the announce targets were exactly the XOR-closest 8 with that node's own token, own id and right port, and the stream multiset equalled the multiset of delivered values; premises checked on the wire.",
+        "'truly closest' lists come from the scripted world; tie-free delivery; sampled placements.", "DESIGN.md §6 C02"),
+    "C03": ("fault_enumeration", "runtime monitoring: wire-only shadow of each search under message faults and 9 forgery classes",
+        "Held = over all explored fault patterns x forgery classes x search phases nothing was yielded or announced that the wire-only shadow does not justify (unique tagged values/tokens make membership exact).",
+        "Forgery classes and fault rates are enumerated/sampled, not exhaustive; right tid from another source counts as an answer.", "DESIGN.md §6 C03"),
+    "C04": ("fault_enumeration", "runtime monitoring: wire-only shadow + virtual-time stamps of stream close under 10 fault patterns, adversarial chains, edge cases",
+        "Held = every explored search closed exactly 1.5 s after the instant its last outstanding query was resolved, within the stated bound, never missed an in-time answer; edge cases closed immediately.",
+        "Tie instants excluded by tie-free delivery; with send failures only termination is judged.", "DESIGN.md §6 C04"),
+    "C05": ("exploration", "runtime monitoring: exactly-once reply matcher over the wire log + content predicates (independent codec)",
+        "Held = for every injected datagram (each from its own source address) the node's answers matched 1:1 and satisfied the content rules; nothing else was answered.",
+        "Well-formed = BEP5 argument lists; ambiguous hostile datagrams may get 0 or 1 answers.", "DESIGN.md §6 C05"),
+    "C06": ("exploration", "runtime monitoring: three-band token oracle over generated histories (module driver + real node)",
+        "Held = on all explored histories tokens were accepted when issued to that IP <= 10 min ago, refused (203, nothing stored) when never issued to it or >= 30 min old.",
+        "Validity between 10 and 30 min is left open, as the statement does; virtual clock hook.", "DESIGN.md §6 C06"),
+    "C07": ("exploration", "runtime monitoring: reference-model comparison after every operation (module driver + real node)",
+        "Held = after every explored operation accept/refuse and the returned values equalled the 24 h / 500-pair reference model.",
+        "Histories sampled; virtual clock hook.", "DESIGN.md §6 C07"),
+    "C08": ("exploration", "runtime monitoring: executable reference relation + shape invariants after every operation on the real RoutingTable",
+        "Held = on all explored histories every transition was one the statement allows and all shape invariants held; failing histories are shrunk.",
+        "Table driven through verif-only re-exports; routers fixed before the first offer.", "DESIGN.md §6 C08"),
+    "C09": ("exploration", "runtime monitoring: iterator oracle (module) + 161-probe wire dump vs hook registry and reply predicates (real node)",
+        "Held = every explored enumeration was a permutation of the live nodes with all closer-prefix nodes first, and every explored reply listed min(8, live) distinct live nodes of the requested family.",
+        "Targets and table shapes sampled (1..160 buckets reached).", "DESIGN.md §6 C09"),
+    "C10": ("exploration", "runtime monitoring: executable BEP5 status spec compared after every event (module) and against the wire log (real node, 1 Hz samples)",
+        "Held = statuses equalled the spec on all explored histories incl. +-1 ms around 15 min; node-level samples never contradicted what the wire log allows.",
+        "Node level uses only events the wire makes certain; re-mention of a dropped contact = fresh hearsay.", "DESIGN.md §6 C10"),
+    "C11": ("exploration", "runtime monitoring: interval analysis over 1 Hz samples of load_contacts() and find_node probes over virtual hours",
+        "Held = in all explored runs (up to 12 virtual hours) responsive contacts were never lost nor non-good > 30 s and silent ones were purged by the stated deadlines.",
+        "'arbitrarily long' bounded to 12 h; latency < 250 ms.", "DESIGN.md §6 C11"),
+    "C12": ("exploration", "runtime monitoring: poison-set monitor over load_contacts(), hook registry dump and search streams",
+        "Held = no unsolicited sender, no name from an impossible response, no router address and not the own id ever appeared among contacts/table, nothing good without having been heard from, in all explored runs.",
+        "Live-prefix forgeries are out of this property's wording.", "DESIGN.md §6 C12"),
+    "C13": ("exploration", "runtime monitoring: differential oracle against an independent codec + metamorphic transforms",
+        "Held = encode/decode agreed with the reference codec on every generated message, permutation, unknown-key variant and malformed variant.",
+        "Reference codec written from BEP3/5/32, self-tested on BEP5's examples.", "DESIGN.md §6 C13"),
+    "C14": ("exploration", "runtime monitoring + sanitizers: supervised worker processes with counting allocator, panic hook, 2 MiB stack",
+        "Held = no explored input (structure-aware hostile generator + systematic sweeps) aborted, panicked, overflowed the stack or requested memory out of proportion.",
+        "Thresholds: single request > 64 KiB or total > 64 x input + 64 KiB; release profile decides.", "DESIGN.md §6 C14"),
+    "C15": ("exploration", "runtime monitoring: API liveness probes, waiter timestamps and wire log over generated configurations and outage patterns",
+        "Held = in every explored configuration the node stayed alive, did not resolve before the first reply, and resolved every waiter within the derived bound.",
+        "Routers are literal ip:port; bound derived from the code's constants.", "DESIGN.md §6 C15"),
+    "C16": ("exploration", "runtime monitoring: differential oracle (early search vs. reference search on the same node)",
+        "Held = every explored early search closed after bootstrap completion with exactly the reference peer set.",
+        "Stable scripted world; reference must reproduce.", "DESIGN.md §6 C16"),
+    "C17": ("exploration", "runtime monitoring: datagram-size monitor at the socket (always on) + dedicated store workload; known finding handled",
+        "Held = no explored datagram exceeded 1500 bytes other than the known finding C17-values-uncapped, which is reported as KNOWN-FINDING.",
+        "Known finding keyed on the exact signature; any other oversize datagram is a violation.", "DESIGN.md §6 C17"),
+    "C18": ("exploration", "runtime monitoring: sliding-window counter over the guarded hook event log during multi-hour virtual runs",
+        "Held = refresh rounds never exceeded window/6 s + 1 + completions in any window and pending timers stayed <= 1 in all explored runs (thousands of re-bootstrap cycles).",
+        "Rounds observed through a guarded hook.", "DESIGN.md §6 C18"),
+    "C19": ("exploration", "runtime monitoring: full-cycle generator driver with bitmap + wire/hook monitor over mixed scenarios",
+        "Held = a full 2^24 cycle and both wraps were repeat-free; every emitted query had an 8-byte id attributable to exactly one live activity.",
+        "2^40 period covered at both ends only.", "DESIGN.md §6 C19"),
     "C20": (
         "exploration",
         "runtime oracle: independent BEP42 validator (own CRC32-C) over generated addresses",
